@@ -23,11 +23,11 @@ type c38Node struct {
 	B     bool
 }
 
-func c38Map() *c38Node              { return &c38Node{Kind: 'm'} }
-func c38Str(s string) *c38Node      { return &c38Node{Kind: 's', S: s} }
-func c38Int(i int64) *c38Node       { return &c38Node{Kind: 'i', I: i} }
-func c38Float(f float64) *c38Node   { return &c38Node{Kind: 'f', F: f} }
-func c38Bool(b bool) *c38Node       { return &c38Node{Kind: 'b', B: b} }
+func c38Map() *c38Node                { return &c38Node{Kind: 'm'} }
+func c38Str(s string) *c38Node        { return &c38Node{Kind: 's', S: s} }
+func c38Int(i int64) *c38Node         { return &c38Node{Kind: 'i', I: i} }
+func c38Float(f float64) *c38Node     { return &c38Node{Kind: 'f', F: f} }
+func c38Bool(b bool) *c38Node         { return &c38Node{Kind: 'b', B: b} }
 func c38List(it ...*c38Node) *c38Node { return &c38Node{Kind: 'l', Items: it} }
 func c38StrList(l []string) *c38Node {
 	n := &c38Node{Kind: 'l'}
